@@ -212,11 +212,39 @@ example : gfxContent ["a", "b", "c"] 4 3 0 1 0 2 1 = [GRow.line "b" 1, GRow.line
     state for sizes, which is how the code is; the harness ties this by creating the widget under one
     environment and calling `rows`/`render` under another (`envchange-*` cases), passing the model the
     `_valid_size` values of the environment in force at the call. -/
-theorem rows_agree (vs : SizeReq → Int × Int) (fit : Bool) (c : Int) :
+theorem rows_agree_sizes (vs : SizeReq → Int × Int) (fit : Bool) (c : Int) :
     widgetRows vs fit c = (flowSizes vs fit c).1.2 ∧ (flowSizes vs fit c).1.2 = (flowSizes vs fit c).2.2 ∧
       (flowSizes vs fit c).1.1 = c := by
   unfold widgetRows flowSizes
   cases fit <;> simp <;> split <;> simp
+
+/-- ROWS AGREE, BOTH BRANCHES OF `render`. For every `_valid_size`, upscale flag and width of a FLOW widget,
+    whether or not rendering the image fails and whether or not an error placeholder is set: `render`
+    either returns the image canvas, `c` columns × `rows((c,))` rows, or — on failure with a placeholder —
+    renders the placeholder *as a box of exactly `(c, rows((c,)))`* (never with the 1-element flow size), or
+    re-raises, which happens only when rendering failed and no placeholder is set.
+    (That a widget rendered as a box of `(c, r)` returns a `c × r` canvas is urwid's contract for box
+    widgets — a parameter here, checked on real placeholders by the harness.) -/
+theorem rows_agree (vs : SizeReq → Int × Int) (fit : Bool) (c : Int) (fails ph : Bool) :
+    match widgetRender vs fit (.flow c) fails ph with
+    | .image cols rows _ imgRows => fails = false ∧ cols = c ∧ rows = widgetRows vs fit c ∧ imgRows = rows
+    | .placeholder size => fails = true ∧ ph = true ∧ size = [c, widgetRows vs fit c]
+    | .raised => fails = true ∧ ph = false := by
+  obtain ⟨h1, h2, h3⟩ := rows_agree_sizes vs fit c
+  unfold widgetRender
+  cases fails <;> cases ph <;> simp [h1, h2, h3]
+
+/-- the same for a BOX widget: image canvas or placeholder get exactly the given `(c, r)` -/
+theorem render_box (vs : SizeReq → Int × Int) (fit : Bool) (c r : Int) (fails ph : Bool) :
+    match widgetRender vs fit (.box c r) fails ph with
+    | .image cols rows _ _ => fails = false ∧ cols = c ∧ rows = r
+    | .placeholder size => fails = true ∧ ph = true ∧ size = [c, r]
+    | .raised => fails = true ∧ ph = false := by
+  unfold widgetRender boxSizes
+  cases fails <;> cases ph <;> simp
+
+example : widgetRender (fun | .width _ => (12, 6) | _ => (30, 15)) false (.flow 12) true true = .placeholder [12, 6] := by
+  decide
 
 /-- the canvas of a flow render (`height = image height`) has one line per image line -/
 theorem flow_canvas_lines (render : List (List Tok)) (w h : Int) (ha va : Align) (W : Int) (hlen : (render.length : Int) = h) :
